@@ -34,7 +34,7 @@ Next ==
   \/ \E h \in {1, 2} : ChildClose(h, 1)
 
 Spec == Init /\ [][Next]_vars
-Export == (Len(hist') > Len(hist) /\ hist'[Len(hist')].e = "ret") => PrintT(<<"BEH", ToJson(hist')>>)
+Export == ExportRet
 
 \* C08 on the model: a poll that returns took no longer than min(timeout, earliest deadline - call time)
 PollBounded ==
